@@ -641,7 +641,7 @@ pub fn gen_cfg(r: &mut Rng, o: &GenOpts) -> BuildCfg {
             user: if r.chance(2, 3) { Some(USERS[r.usize(owner_pool)].to_string()) } else { None },
             group: if r.chance(2, 3) { Some(USERS[r.usize(owner_pool)].to_string()) } else { None },
             flags,
-            caps: if r.chance(1, 6) { Some(["cap_net_admin,cap_net_raw+p", "cap_chown=e", "all=eip", "=ep cap_sys_admin-e", "cap_setuid+ep"][r.usize(5)].to_string()) } else { None },
+            caps: if r.chance(1, 6) { Some(["cap_net_admin,cap_net_raw+p", "cap_chown=e", "all=eip", "=ep cap_sys_admin-e", "cap_setuid+ep", "CAP_NET_BIND_SERVICE=ep", "ALL=p", "=e CAP_CHOWN-e", "Cap_Sys_Admin+ep  cap_kill=i", "cap_chown=e\tcap_kill+p "][r.usize(10)].to_string()) } else { None },
             symlink,
             mtime,
             verify: if r.chance(1, 5) { Some([0u32, 0xffff_ffff, 1 | 2 | 4, 1 << 6][r.usize(4)]) } else { None },
